@@ -336,7 +336,9 @@ pub fn run(script: &[Line], prefix: &[usize], horizon: usize) -> Exec {
         }
         last = Some(choice);
         if choice == GUI {
-            if next_line == script.len() {
+            // a script line "<EOF>" closes the input at that moment (under its own guard) instead of at the end, when
+            // everything due has been answered
+            if next_line == script.len() || script[next_line].text == "<EOF>" {
                 s.eof = true;
                 log.push(Ev::Deliver("<EOF>".into()));
             } else {
